@@ -7,4 +7,11 @@ require (
 	pgregory.net/rapid v1.3.0
 )
 
+require (
+	github.com/alitto/pond/v2 v2.7.1 // indirect
+	github.com/coder/websocket v1.8.12 // indirect
+	github.com/failsafe-go/failsafe-go v0.6.8 // indirect
+	github.com/lithammer/dedent v1.1.0 // indirect
+)
+
 replace github.com/pancsta/asyncmachine-go => /repo
